@@ -1,1 +1,18 @@
-fn main(){}
+//! Generator checks (C08, C09): batch crates compiled with cargo.
+use vl_model::ctx::parse_args;
+
+mod batch;
+mod c09;
+mod known;
+
+fn main() {
+    let args = parse_args();
+    std::panic::set_hook(Box::new(|_| {}));
+    match args.id.as_str() {
+        "C09" => c09::run(&args),
+        other => {
+            eprintln!("vl-gen: unknown property {}", other);
+            std::process::exit(2)
+        }
+    }
+}
